@@ -16,7 +16,7 @@ FUNCTIONS = ["sqfs_super_read",
              "sqfs_xattr_reader_read_value", "read_value_hdr", "read_key_hdr",
              "gzip_do_block", "xz_uncomp_block", "lz4_uncomp_block",
              "zstd_uncomp_block", "lzma_uncomp_block",
-             "would_be_own_parent"]
+             "would_be_own_parent", "fill_dir", "should_skip"]
 TRUSTED = [
     "sqfs_file_t.read_at contract (harness/C10/rd_env.h): requires a writable buffer of the requested size; delivers arbitrary bytes or any negative error",
     "sqfs_compressor_t.do_block contract (un-compress): requires readable input / writable output of the given sizes; returns any r <= outsize or negative, writes only out[0..r) - CHECKED for the five in-tree wrappers by the comp_* harnesses against the library contracts below",
@@ -28,8 +28,8 @@ TRUSTED = [
 ]
 ASSUMPTIONS = [
     "leaf functions are verified one by one from arbitrary well-formed object states (wf_super, wf_meta, wf_inode, wf stream state) - each wf predicate is ensured by the harness of the function that produces the object (super, meta_seek/meta_read loop invariant, read_inode, dr_create_stream) and required by the consumers; the composition into rdsquashfs / sqfs2tar / sqfsdiff main() is not verified",
-    "NOT covered: sqfs_dir_reader_* (open_dir, read, get_inode, resolve_path, dcache), dir_iterator.c, fill_dir / sqfs_dir_reader_get_full_hierarchy (only would_be_own_parent, bounded to an ancestor chain of 4; a harness over fill_dir itself with the directory reader as a contract did not get through symbolic execution in 170 s even for one entry per directory and one level - so that fill_dir actually CALLS the check for every child is not verified), sqfs_tree_node_get_path, sqfs_inode_unpack_dir_index_entry, sqfs_dir_entry_from_inode, sqfs_xattr_reader_read (realloc variant: did not finish in 170 s) and read_all, the bin/ tools",
-    "bounded stand-ins (not counted as proved): read_inode_dir_ext with <= 1 index entry (2 entries hit the 14 GB memory cap), sqfs_data_reader_read with <= 3 block words, sqfs_data_reader_get_block with index <= 3, xattr id table <= 2 blocks, ancestor chain <= 4",
+    "NOT covered: sqfs_dir_reader_* (open_dir, read, get_inode, resolve_path, dcache), dir_iterator.c, sqfs_dir_reader_get_full_hierarchy around fill_dir (fill_dir itself: harness fill_dir, one directory step with <= 1 entry below an arbitrary ancestor chain <= 2, create_node and the directory reader as contracts; two entries per directory did not finish in 170 s with either SAT solver), sqfs_tree_node_get_path, sqfs_inode_unpack_dir_index_entry, sqfs_dir_entry_from_inode, sqfs_xattr_reader_read (realloc variant: did not finish in 170 s) and read_all, the bin/ tools",
+    "bounded stand-ins (not counted as proved): read_inode_dir_ext with <= 1 index entry (2 entries hit the 14 GB memory cap), sqfs_data_reader_read with <= 3 block words, sqfs_data_reader_get_block with index <= 3, xattr id table <= 2 blocks, ancestor chain <= 4, fill_dir: <= 1 entry per directory and ancestor chain <= 2",
     "termination is proved as a decreases clause / unwinding assertion per loop, plus C05.readdir.progress and C05.dr_stream.progress for consumer loops; wall-clock bounds and the recursion depth of the tree walk are not",
     "payload bytes are tracked through one arbitrary witness position per buffer; short on-disk records (<= 40 / 96 bytes) are fully symbolic",
     "--conversion-check is disabled in readdir and xattr_kv (signed inode_diff added to an unsigned base on purpose; 16 bit fields widened); everywhere else all of cbmc's bounds / pointer / overflow / conversion / shift checks are on",
@@ -153,9 +153,27 @@ HARNESSES = [
          nochecks=["--pointer-overflow-check"], solver="cadical",
          cases=[dict(id="n0", defines={"FD_NENT": 0}, tier="quick")] +
                [dict(id="n1_t%d" % t, defines={"FD_NENT": 1, "FD_T0": t}, tier="quick")
-                for t in (0, 1, 2)] +
-               [dict(id="n2_t%d%d" % (a, b), defines={"FD_NENT": 2, "FD_T0": a, "FD_T1": b},
-                     tier="quick" if (a, b) in ((1, 2), (2, 1)) else "thorough")
-                for a in (0, 1, 2) for b in (0, 1, 2)]),
+                for t in (0, 1, 2)]),
 
+    # --conversion-check off: `flags & ~SQFS_DIR_OPEN_ALL_FLAGS` converts the int
+    # ~1 to unsigned on purpose (well defined)
+    dict(name="dirrd", file="dirrd.c", label="proved", timeout=170, malloc_fail=True,
+         nochecks=["--conversion-check"],
+         fp={"read_at": "stub_read_at", "destroy": "dir_reader_destroy",
+             "copy": "dir_reader_copy", "key_compare": "dcache_key_compare"},
+         unwindset=["verif_nd_bytes.0:100", "memset.0:100", "strlen.0:4", "strcpy.0:4",
+                    "memcpy.0:9"],
+         cases=[dict(id=n, defines={"FN": k}, tier="quick")
+                for k, n in ((1, "open_dir"), (2, "read"), (3, "get_inode"), (4, "resolve_inum"))]),
+    dict(name="resolve_path", file="resolve_path.c",
+         label="bounded(path <= 4 bytes, <= 2 entries per directory, names <= 3 bytes)",
+         timeout=170, malloc_fail=True, native=False,
+         pre_instrument_flags=["--replace-calls", "sqfs_dir_reader_open_dir:stub_open_dir",
+                               "--replace-calls", "sqfs_dir_reader_read:stub_dir_read",
+                               "--replace-calls", "sqfs_dir_reader_get_inode:stub_get_inode",
+                               "--replace-calls", "sqfs_dir_reader_resolve_inum:stub_resolve_inum"],
+         fp={"read_at": "stub_read_at", "destroy": "rp_destroy", "copy": "rp_copy",
+             "key_compare": "dcache_key_compare"},
+         cases=[dict(id="plen%d" % n, defines={"PLEN": n}, unwind=n + 4,
+                     tier="quick" if n <= 3 else "thorough") for n in range(0, 5)]),
 ]
